@@ -124,16 +124,25 @@ func c12IsConst(e ast.Expr) bool {
 	return false
 }
 
-func genC12(repo string) (string, string, error) {
+// collectSites lists the potential panic sites of the given files (functions named in skipFuncs are left out).
+// withDeref adds kind "deref": explicit pointer dereferences *p in expression position (nil pointer dereference).
+func collectSites(repo string, files []string, skipFuncs map[string][]string, onlyFuncs map[string][]string, withDeref bool, skipStringKeys bool) ([]string, error) {
 	var sites []c12Site
-	for _, rel := range c12Files {
+	for _, rel := range files {
 		fset, f, err := parseFile(repo, rel)
 		if err != nil {
-			return "", "", fmt.Errorf("%s: %v", rel, err)
+			return nil, fmt.Errorf("%s: %v", rel, err)
 		}
 		skip := map[string]bool{}
-		for _, n := range c12WriterFuncs[rel] {
+		for _, n := range skipFuncs[rel] {
 			skip[n] = true
+		}
+		var only map[string]bool
+		if l, ok := onlyFuncs[rel]; ok {
+			only = map[string]bool{}
+			for _, n := range l {
+				only[n] = true
+			}
 		}
 		// package-level constants of the file: an expression made of them is constant
 		consts := map[string]bool{}
@@ -182,8 +191,12 @@ func genC12(repo string) (string, string, error) {
 				continue
 			}
 			fn := c12FuncName(fd)
-			if skip[fn] {
+			if skip[fn] || (only != nil && !only[fn]) {
 				continue
+			}
+			typePos := map[*ast.StarExpr]bool{}
+			if withDeref {
+				markTypeStars(fd, typePos)
 			}
 			okAssert := map[*ast.TypeAssertExpr]bool{}
 			add := func(kind string, n ast.Node) {
@@ -214,7 +227,14 @@ func genC12(repo string) (string, string, error) {
 					if !okAssert[x] && x.Type != nil {
 						add("assert", x)
 					}
+				case *ast.StarExpr:
+					if withDeref && !typePos[x] {
+						add("deref", x)
+					}
 				case *ast.IndexExpr:
+					if lit, ok := x.Index.(*ast.BasicLit); ok && skipStringKeys && lit.Kind == token.STRING {
+						break // m["key"]: only a map can be indexed by a string constant
+					}
 					add("index", x)
 				case *ast.SliceExpr:
 					if x.Low == nil && x.High == nil && x.Max == nil {
@@ -263,9 +283,6 @@ func genC12(repo string) (string, string, error) {
 			})
 		}
 	}
-	if len(sites) == 0 {
-		return "", "", fmt.Errorf("no sites found (anchored files changed?)")
-	}
 	// merge identical (file, func, kind, text) into one entry with its occurrence count
 	count := map[c12Site]int{}
 	for _, s := range sites {
@@ -276,6 +293,89 @@ func genC12(repo string) (string, string, error) {
 		keys = append(keys, fmt.Sprintf("%s|%s|%s|%s|%d", s.file, s.fn, s.kind, s.text, n))
 	}
 	sort.Strings(keys)
+	return keys, nil
+}
+
+// markTypeStars records the *T nodes that are types, not dereferences.
+func markTypeStars(root ast.Node, out map[*ast.StarExpr]bool) {
+	var markType func(e ast.Expr)
+	markType = func(e ast.Expr) {
+		ast.Inspect(e, func(n ast.Node) bool {
+			if st, ok := n.(*ast.StarExpr); ok {
+				out[st] = true
+			}
+			return true
+		})
+	}
+	ast.Inspect(root, func(n ast.Node) bool {
+		switch x := n.(type) {
+		case *ast.Field:
+			if x.Type != nil {
+				markType(x.Type)
+			}
+		case *ast.ValueSpec:
+			if x.Type != nil {
+				markType(x.Type)
+			}
+		case *ast.TypeSpec:
+			markType(x.Type)
+		case *ast.CompositeLit:
+			if x.Type != nil {
+				markType(x.Type)
+			}
+		case *ast.ArrayType:
+			markType(x.Elt)
+		case *ast.MapType:
+			markType(x.Key)
+			markType(x.Value)
+		case *ast.ChanType:
+			markType(x.Value)
+		case *ast.TypeAssertExpr:
+			if x.Type != nil {
+				markType(x.Type)
+			}
+		case *ast.CaseClause: // type switch cases
+			for _, e := range x.List {
+				if st, ok := e.(*ast.StarExpr); ok {
+					if _, isSel := st.X.(*ast.SelectorExpr); isSel {
+						out[st] = true
+					} else if id, isId := st.X.(*ast.Ident); isId && ast.IsExported(id.Name) {
+						out[st] = true
+					}
+				}
+			}
+		case *ast.CallExpr:
+			if p, ok := x.Fun.(*ast.ParenExpr); ok { // conversion (*T)(x)
+				markType(p.X)
+			}
+			if id, ok := x.Fun.(*ast.Ident); ok && (id.Name == "new" || id.Name == "make") && len(x.Args) > 0 {
+				markType(x.Args[0])
+			}
+			if ix, ok := x.Fun.(*ast.IndexExpr); ok { // generic instantiation f[*T](...)
+				markType(ix.Index)
+			}
+		case *ast.IndexExpr: // generic type instantiation T[*U]
+			if st, ok := x.Index.(*ast.StarExpr); ok {
+				if id, isId := st.X.(*ast.Ident); isId && ast.IsExported(id.Name) {
+					out[st] = true
+				}
+				if _, isSel := st.X.(*ast.SelectorExpr); isSel {
+					out[st] = true
+				}
+			}
+		}
+		return true
+	})
+}
+
+func genC12(repo string) (string, string, error) {
+	keys, err := collectSites(repo, c12Files, c12WriterFuncs, nil, false, false)
+	if err != nil {
+		return "", "", err
+	}
+	if len(keys) == 0 {
+		return "", "", fmt.Errorf("no sites found (anchored files changed?)")
+	}
 	var b strings.Builder
 	b.WriteString(coqHeader("C12: potential panic / input-sized allocation sites of the reader-side functions of the anchored files (see gen/c12.go)."))
 	b.WriteString("Local Open Scope string_scope.\n")
